@@ -31,6 +31,9 @@ pub enum Error {
 }
 pub type Result<T> = core::result::Result<T, Error>;
 
+// assumed: A-STD `u64::from(bool)` is 0 / 1 (core: impl From<bool> for u64)
+pub assume_specification [<u64 as core::convert::From<bool>>::from](b: bool) -> (r: u64) ensures r == (if b { 1u64 } else { 0u64 });
+
 impl Error {
     // assumed: ENV Error::should_reconnect (mod.rs: a pure classification of the variant); its value is irrelevant to the contracts here
     #[verifier::external_body]
